@@ -302,6 +302,41 @@ theorem C09_fact_codes :
     ∧ Thanos.Facts.storesWarnCodeCond = "strings.Contains(warn, \"rpc error: code = ResourceExhausted\")"
     ∧ Thanos.Facts.storesLimiterCond = "reserved := l.reserved.Add(num); reserved > l.limit" := by decide
 
+/-! ### which error a refused reservation surfaces as -/
+
+/-- where a limit is enforced: inside the store gateway (`blockSeriesClient`), or by the `limitedStoreServer`
+    wrapper that sidecar, ruler, receive and querier put around their store (`--store.limits.request-series`) -/
+inductive Enforcer where
+  | gateway
+  | limitedServer
+  deriving DecidableEq, Repr
+
+/-- does every limit error of the enforcer carry the ResourceExhausted status (read off the sources) -/
+def surfacesAsResourceExhausted : Enforcer → Bool
+  | .gateway => Thanos.Facts.storesLimitErrorCodes.all (· == "int(codes.ResourceExhausted)") &&
+      !Thanos.Facts.storesLimitErrorCodes.isEmpty
+  | .limitedServer =>
+      -- the form a repair would take (string prefix tests do not reduce in the kernel: the accepted forms are listed)
+      Thanos.Facts.storesLimitedSendErrors.all (fun s =>
+        s == "status.Error(codes.ResourceExhausted, errors.Wrapf(err, \"failed to send series\").Error())" ||
+        s == "status.Error(codes.ResourceExhausted, errors.Wrapf(err, \"failed to send samples\").Error())") &&
+      !Thanos.Facts.storesLimitedSendErrors.isEmpty
+
+/-- C09 "fails with a resource-exhausted error", for every place a limit is enforced -/
+def C09_code_full : Prop := ∀ e : Enforcer, surfacesAsResourceExhausted e = true
+
+/-- the store gateway does -/
+theorem C09_code_partial : surfacesAsResourceExhausted .gateway = true := by decide
+
+/-- `limitedServer.Send` returns `errors.Wrapf(err, "failed to send series")`: a plain error, which reaches the
+    client as Unknown (TSDB store behind it) — known finding `limited-server-code-not-resource-exhausted`; the exact
+    message is pinned by TestLimitedStoreServer -/
+theorem C09_code_full_false : ¬ C09_code_full := by
+  intro h
+  have := h .limitedServer
+  revert this
+  decide
+
 /-! ### non-vacuity -/
 example : run (new 10) [3, 4, 3, 1, 0] = [true, true, true, false, false] := by decide
 example : allGranted (new 10) [3, 4, 3] = true := by decide
